@@ -113,7 +113,12 @@ fn krylov(t: &mut Toks, cx: &mut Ctx, c09: bool) -> String {
                     let zero_rhs_slack = if nrm(&b.vec) == 0.0 { (10.0 * tol + drift) * inv.norm_inf() * (n as f64).sqrt() } else { 0.0 };
                     // (the recurrence residual drifts from the true one in proportion to the largest iterate, here at least the guess)
                     let guess_slack = drift * kappa * nrm(&x0.vec);
-                    cx.check(nrm(&diff) <= (10.0 * tol + drift) * kappa * nrm(&xd.vec) + zero_rhs_slack + guess_slack + 1e-300, &format!("answer differs from the direct dense solution by more than tol * condition number (|x - x_direct| = {:e}, bound {:e}, kappa {:e})", nrm(&diff), (10.0 * tol + drift) * kappa * nrm(&xd.vec), kappa));
+                    if !(nrm(&diff) <= (10.0 * tol + drift) * kappa * nrm(&xd.vec) + zero_rhs_slack + guess_slack + 1e-300) {
+                        // (a near-breakdown of the two-sided Lanczos process — a denominator that is 0 in exact arithmetic and 1e-16 in f64 — blows an
+                        //  iterate up to 1e15; the recurrence residual then "converges" while x has lost its digits: same class as the Err outcomes)
+                        let lm = if solver == "qmr" || solver == "bicg" || solver == "bicgstab" { lanczos_min(&dense, &b.vec, &x0.vec, n + 2) } else { 1.0 };
+                        let tag = if lm < 5e-2 { format!(" [two-sided Lanczos near-breakdown: min |<w,v>|/(|w||v|) = {:e}]", lm) } else if lm < 1.0 { format!(" [min |<w,v>|/(|w||v|) = {:e}]", lm) } else { String::new() };
+                        cx.fail(format!("answer differs from the direct dense solution by more than tol * condition number (|x - x_direct| = {:e}, bound {:e}, kappa {:e}){}", nrm(&diff), (10.0 * tol + drift) * kappa * nrm(&xd.vec), kappa, tag)); }
                 } }
             }
             Ok(Err(_)) => {
